@@ -152,6 +152,8 @@ def search(res, tier, boost=False):
     todo = [(-1 - i, c[0], c[1], c[2], None, c[4], c[3]) for i, c in enumerate(CORPUS)]
     todo += list(histories(res, rng, n, 25 if tier == 'quick' else 200))
     for h, glue, X, T, bias, sigma, L in todo:
+        if sum(1 for v in res.violations if 'no-termination' in str(v)) >= 3:
+            break       # every further runaway costs a full bisection budget; three replays are enough
         pm = PyMesh.create(glue, X, T)
         ops = []
         if isinstance(L, list):
